@@ -107,6 +107,8 @@ Definition amicro (m : micro) (a : astate) : astate + err :=
                      else (if maynull then AMaybe 0 b false else AObj 0 b)) a)
       else inr (5, d)
   | MDefNull d => if Nat.eqb (aowned (aget a d)) 0 then inl (aset d (ANull false) a) else inr (5, d)
+  | MSlotInit t => match aget a t with ANull _ => inl (aset t AUninit a) | _ => inr (11, t) end
+  | MSlotKill t => inl (aset t AUninit a)
   | MMove d sv mv own undef =>
       let x := aget a sv in
       if areadable x then
@@ -177,12 +179,15 @@ Definition edge_ok (ann : annot) (e : label * astate) : bool :=
 Definition block_ok (ann : annot) (ms : list micro) (t : term) (a : astate) : bool :=
   match aflow ms t 0 a with inl es => forallb (edge_ok ann) es | inr _ => false end.
 
-Definition init_astate (args : list (val * bool)) : astate :=
+Definition init_astate0 (args : list (val * bool)) (base : astate) : astate :=
   fold_right (fun (p : val * bool) (a : astate) => aset (fst p) (if snd p then AMaybe 0 BAlways false else AObj 0 BAlways) a)
-             (PositiveMap.empty aval) args.
+             base args.
+Definition init_tokens (ts : list val) : astate :=
+  fold_right (fun (t : val) (a : astate) => aset t (ANull false) a) (PositiveMap.empty aval) ts.
+Definition init_astate (f : func) : astate := init_astate0 (fargs f) (init_tokens (ftokens f)).
 
 Definition check_ann (f : func) (ann : annot) : bool :=
-  edge_ok ann (1%positive, init_astate (fargs f)) &&
+  edge_ok ann (1%positive, init_astate f) &&
   forallb (fun p => match PositiveMap.find (fst p) (fblocks f) with
                     | Some b => block_ok ann (bops b) (bterm b) (snd p)
                     | None => false
@@ -268,7 +273,7 @@ Fixpoint iter (f : func) (fuel : nat) (wl : list label) (ann : annot) : annot + 
   end.
 
 Definition infer (f : func) (fuel : nat) : annot + verdict :=
-  iter f fuel [1%positive] (PositiveMap.add 1%positive (init_astate (fargs f)) (PositiveMap.empty astate)).
+  iter f fuel [1%positive] (PositiveMap.add 1%positive (init_astate f) (PositiveMap.empty astate)).
 
 Definition check_func (f : func) (fuel : nat) : verdict :=
   match infer f fuel with
@@ -279,6 +284,6 @@ Definition check_func (f : func) (fuel : nat) : verdict :=
 
 (* building a function from the dumped op list *)
 Definition mk_block (ops : list op) (t : term) : block := {| bops := flat_map compile_op ops; bterm := t |}.
-Definition mk_func (blocks : list (label * block)) (args : list (val * bool)) : func :=
+Definition mk_func (blocks : list (label * block)) (args : list (val * bool)) (tokens : list val) : func :=
   {| fblocks := fold_left (fun m p => PositiveMap.add (fst p) (snd p) m) blocks (PositiveMap.empty block);
-     fargs := args |}.
+     fargs := args; ftokens := tokens |}.
